@@ -72,3 +72,20 @@ Theorem C06_source_adaptor_constraints_and_jacobians : forall {L} (ops : leafops
   MFDeviceSet_constraints (DeviceSet_constraints (repeat null_ckid k) (map (fun j => (j, 1%nat)) (seq 0 k)) (k, n) (Some (l_bounds L ops l)))
     (l_cons L ops l) (k, n) = gcons ops d.
 Proof. intros L ops i l flows. apply gen_mf_node_constraints. Qed.
+
+(* ---- utils.zmm regenerated from utils.py on every run (Gen/Utils.v: `r = np.zeros(x.shape)`, the `axis == 0 / axis == 1 / else raise`
+        dispatch, the kept rows or column selected, `fn(i).reshape(i.shape) if fn else i` written back), in the two uses the exported
+        Jacobians make of it: a child's Jacobian zero-padded onto its rows IS zpad, a slot's column vector IS col_jac - the two helpers
+        the constraint model (and hence C06_tree) is written in. ---- *)
+From DK.Model Require Import NpOps.
+From DK.Gen Require Import Utils.
+From DK.Proofs Require Import GenZmm.
+Theorem C06_source_zmm : forall {A} `{Num A} (R n : nat) (s : list A), (0 < n)%nat -> (0 < R)%nat -> List.length s = (R * n)%nat ->
+  (forall o r (jf : list A -> list A), (o + r <= R)%nat -> List.length (jf (sub_flat R n o r s)) = (r * n)%nat ->
+     List.concat (zmm_rows_gen (reshape R n s) o r (Some (fun blk => jf (List.concat blk)))) = zpad R n o r (jf (sub_flat R n o r s)))
+  /\ (forall i v, (i < n)%nat -> List.concat (zmm_col_gen (reshape R n s) i (Some (fun _ => v))) = col_jac R n i v).
+Proof.
+  intros A H R n s Hn HR Hs. split.
+  - intros o r jf Hor Hj. now apply gen_zmm_rows.
+  - intros i v Hi. now apply gen_zmm_col.
+Qed.
